@@ -7,8 +7,8 @@ def run(chk, tier, vh):
     import c18
     b = c18.BOUNDS[tier]
     disagree, total, examples = 0, 0, []
-    for alpha in ("full", "lines", "indent", "interp", "doc", "classes", "words"):
-        r = vlib.tlc("MC_Lexer", "MC_Lexer.cfg", constants={"AlphaName": '"%s"' % alpha, "N": b.get(alpha, 6 if alpha == "doc" else 4)}, xss="1g")
+    for alpha in ("full", "lines", "indent", "interp", "doc", "classes", "words", "ilines"):
+        r = vlib.tlc("MC_Lexer", "MC_Lexer.cfg", constants={"AlphaName": '"%s"' % alpha, "N": b.get(alpha, 6 if alpha == "doc" else 4) if alpha != "ilines" else 5}, xss="1g")
         chk.add_tlc(r)
         recs = [{"id": i, "src": "".join(c["parts"])} for i, c in enumerate(r.records)]
         real = {o["id"]: o for o in vlib.run_vh(vh, ["lex"], records=recs)}
